@@ -187,9 +187,11 @@ func (p *Prog) verifyFunction(f *ssa.Function, c *Contract) (res *FnResult) {
 	for _, w := range c.Witnesses {
 		if v, ok := ex.witness[w.Name]; ok {
 			vars[w.Name] = v
+			vars[w.Name+"$captured"] = ex.witness[w.Name+"$captured"]
 		} else {
 			wt := p.witnessType(f, w)
 			vars[w.Name] = SV{ex.havocVal("wit_"+w.Name, wt, tTrue), wt}
+			vars[w.Name+"$captured"] = SV{tFalse, types.Typ[types.Bool]}
 			q.note("witness %s was never captured (no call %s#%d reached)", w.Name, w.Callee, w.N)
 		}
 	}
